@@ -1157,8 +1157,9 @@ fn main() {
     let thorough = ctx.thorough();
 
     // ---------------- bounds
-    let n1_max = ctx.pick(5, 7); // 1-D multisets of {0..4}
-    let n2_max = ctx.pick(4, 5); // subsets of the 3x3 lattice
+    let n1_max = ctx.pick(5, 8); // 1-D multisets of {0..4}
+    let n1_all_images = ctx.pick(5, 7); // larger multisets: identity image only
+    let n2_max = ctx.pick(4, 6); // subsets of the 3x3 lattice
     let k_max = ctx.pick(3, 4);
     let budgets = ctx.pick(6, 12);
     let seeds: u64 = ctx.pick(4, 16);
@@ -1168,13 +1169,13 @@ fn main() {
 
     ctx.set_rule(&format!(
         "datasets: every multiset of 1..={n1} points of {{0..4}} (1-D, duplicates) and every subset of 1..={n2} points of the 3x3 lattice (2-D), \
-         under the affine images id, +1e3 (budgets <= 6 in f32), x1e-3 (f32 and f64) and 1e3+1e-3x (f64 only); metrics L2, L1; k = 1..min(n,{k}). \
+         under the affine images id, +1e3 (budgets <= 6 in f32), x1e-3 (f32 and f64) and 1e3+1e-3x (f64 only); 1-D multisets of more than {n1a} points under the identity image only; metrics L2, L1; k = 1..min(n,{k}). \
          trajectory cases = dataset x float x metric x k x Precomputed start (EVERY distinct k-sub-multiset of the data rows + 2 off-data starts, one with a permanently empty cluster) x tolerance {{1e-4,1e-2}}; \
          per case the real fit runs with max_n_iterations(m), n_runs(1) for every m = 1..={b} and is compared with the set of states the reference m_k-means step reaches after m transitions (ties branch). \
          seeded cases = dataset (id image; all images for n<=3) x float x metric x k x {{random, kmeans++, kmeans||}} x seed 0..{s} x iteration cap {caps:?}, tolerance 1e-4; per case single-restart fits of restart 1..={r} and fits with n_runs = 2..={r} from the same seed. \
          evaluations = fits of the real code; non-trivial = fits with k >= 2 on data with >= 2 distinct rows; every fitted model additionally gets predict (batch, single row) / transform evaluations on its training rows and on the lattice + half-lattice + far query points (first and last fit of a case). \
          states / transitions = distinct reference states (centroid set, stopped flag) per level / reference steps.",
-        n1 = n1_max, n2 = n2_max, k = k_max, b = budgets, s = seeds, caps = iter_caps, r = max_runs
+        n1 = n1_max, n1a = n1_all_images, n2 = n2_max, k = k_max, b = budgets, s = seeds, caps = iter_caps, r = max_runs
     ));
     ctx.assume("reference = plain f64 m_k-means step (nearest centroid under the metric's reduced distance, centroid := mean of assigned points and previous position) on the coordinates as rounded to the subject's float type; stop rule = matrix distance between consecutive centroid sets < tolerance (for L1 either the L1 or the euclidean matrix distance is admitted, rustdoc says euclidean, code uses the metric)");
     ctx.assume("ties: reduced distances closer than tie = 4*diam*e_c + 64*eps*diam^2 (e_c = 2(n+2)*eps*max|coord|, eps = machine epsilon of the float type) are treated as tied; the reference branches over every tie resolution and the implementation may follow any branch; a step whose ties multiply to > 4096 branches (or a level of > 20000 states) switches the trajectory oracle off for the case (counted)");
@@ -1203,6 +1204,9 @@ fn main() {
             let mut images = vec!["id", "off1e3", "scale1e-3"];
             if float == "f64" {
                 images.push("off1e3_scale1e-3");
+            }
+            if ds.dim == 1 && n > n1_all_images {
+                images.truncate(1);
             }
             for img in images {
                 let map = |rows: &Vec<Vec<f64>>| -> Vec<Vec<f64>> { rows.iter().map(|r| r.iter().map(|&x| image(img, x)).collect()).collect() };
